@@ -67,10 +67,69 @@ def load_contracts():
     return REGISTRY
 
 
+class _NS:
+    def __init__(self, d):
+        self.__dict__.update(d)
+
+
+def fragment_function(c):
+    """the fragment, extracted mechanically from the real source at run time and executed on given locals"""
+    import ast
+    import copy as _copy
+    repo = os.environ.get("VERIF_REPO_ROOT") or os.getcwd()
+    path = os.path.join(repo, c.file)
+    if not os.path.exists(path):
+        for pth in sys.path:
+            if os.path.exists(os.path.join(pth, c.file)):
+                path = os.path.join(pth, c.file)
+                break
+    tree = ast.parse(open(path).read())
+    fn = tree
+    for part in c.qualname.split("."):
+        fn = next(n for n in fn.body if isinstance(n, (ast.FunctionDef, ast.ClassDef)) and n.name == part)
+    frag = c.cls.fragment
+    first, last = frag["first"].strip(), frag["last"].strip()
+
+    def head(st):
+        return ast.unparse(st).splitlines()[0].strip()
+
+    def search(body):
+        for i, st in enumerate(body):
+            if head(st) == first:
+                for j in range(i, len(body)):
+                    if head(body[j]) == last:
+                        return body[i:j + 1]
+            for attr in ("body", "orelse", "finalbody"):
+                sub = getattr(st, attr, None)
+                if isinstance(sub, list) and sub:
+                    r = search(sub)
+                    if r:
+                        return r
+        return None
+
+    block = search(fn.body)
+    if not block:
+        raise RuntimeError("fragment not found")
+    mod = ast.Module(body=[_copy.deepcopy(s) for s in block], type_ignores=[])
+    ast.fix_missing_locations(mod)
+    code = compile(mod, f"<fragment of {c.target}>", "exec")
+    modname = c.file[:-3].replace("/", ".")
+    glob = dict(importlib.import_module(modname).__dict__)
+
+    def run(**locals_):
+        env = dict(locals_)
+        exec(code, glob, env)
+        return _NS(env)
+
+    return run
+
+
 def real_function(c):
     hook = getattr(c.cls, "real", None)
     if hook is not None:
         return hook()
+    if getattr(c.cls, "fragment", None):
+        return fragment_function(c)
     modname = c.file[:-3].replace("/", ".")
     mod = importlib.import_module(modname)
     obj = mod
